@@ -65,7 +65,11 @@ func VH_C17_ConnFetchCut(version, nrec, codec int) {
 		stored = append(stored, vhStored{offset: first + int64(i), key: k, value: v})
 	}
 	var wire []byte
-	if codec == 0 {
+	if codec == 4 {
+		// message format 1 (one message), read with Batch.Read like codec 3
+		wire = vhEncMessage(first, 1, 0, 1600000000000, recs[0].key, recs[0].value)
+		codec = 3
+	} else if codec == 0 || codec == 3 {
 		wire = vhEncBatchV2(first, 0, int32(nrec-1), 1600000000000, 1600000000000, int32(nrec), recs)
 	} else {
 		compress.Codecs[1] = vhBlockCodec{}
@@ -90,6 +94,20 @@ func VH_C17_ConnFetchCut(version, nrec, codec int) {
 	_, serr := c.Seek(first, SeekAbsolute|SeekDontCheck)
 	vhAssert(serr == nil, "seek-ok")
 	b := c.ReadBatchWith(ReadBatchConfig{MinBytes: 1, MaxBytes: 100000})
+	if codec == 3 {
+		// Batch.Read into a buffer shorter than the value (1 byte for 2): the response is cut inside its only record
+		// (or before it), so the read fails with the truncation - not with io.ErrShortBuffer, the one error after
+		// which a Batch keeps its connection - and the connection is closed
+		small := make([]byte, 1)
+		_, rerr := b.Read(small)
+		cerr := b.Close()
+		vhAssert(rerr != nil && !errors.Is(rerr, io.EOF), "truncated-read-is-an-error")
+		vhAssert(!errors.Is(rerr, io.ErrShortBuffer), "truncation-is-not-reported-as-a-short-buffer")
+		vhAssert(cerr != nil, "close-reports-the-truncation")
+		vhAssert(fc.closed, "connection-closed-after-a-truncated-response")
+		vhReach("c17-conn-fetch-cut")
+		return
+	}
 	var got []Message
 	var lastErr error
 	for i := 0; i < nrec+2; i++ {
